@@ -121,6 +121,7 @@ def explore(ctx):
             elif x.get("verify") == "ok" and (x.get("scalar") != "signed" or not x.get("group_ok")):
                 failures.append({"class": None, "witness": True,
                                  "text": f"accepted although scalar decryption does not give the signed claim: byte decomposition '{variant}' ({s_['suite']}), decrypt_scalar -> {x.get('scalar')}", "case": case})
+    failures += C.domain_generator_pin()
     return {
         "evaluations": len(res) + sum(len(r.get("decrypt", [])) for r in impl) + 4 * len(vb),
         "distinct_nontrivial": distinct + len(d2),
